@@ -595,6 +595,12 @@ func c15Traced(w *mon.W, seqs int) {
 			if p == sock+".stop" || p == sock || strings.HasPrefix(p, "/__verif") {
 				continue
 			}
+			// read-only introspection by the language runtime / libc (thread start-up), exact paths only:
+			// anything else under /proc or /sys is judged like any other path
+			if (p == "/sys/devices/system/cpu/online" || p == "/sys/kernel/mm/transparent_hugepage/hpage_pmd_size" || p == "/proc/self/auxv") && strings.Contains(rest, "O_RDONLY") {
+				w.Count("traced_runtime_introspection_reads", 1)
+				continue
+			}
 			judged++
 			if !filepath.IsAbs(p) {
 				w.Note("relative path %q in traced syscall %s (not judged)", p, op)
